@@ -102,6 +102,37 @@ Theorem C07_retraverse : forall procs f h c h1 l,
 Proof. exact retraverse. Qed.
 Print Assumptions C07_retraverse.
 
+(* CarCdr of micro/stream.go as translated from the Go source on every run (harness/cmd/gencell -> gen/CellGen.v: a term of the
+   statement language of CellLang.v over the fields state / proc / mem of the receiver) IS the carcdr of the memory-level model:
+   same result, same heap, same writes (at most one, to the field mem of the receiver), on every heap and every stream cell; it
+   never panics.  So C07_memo and C07_retraverse are statements about the text. *)
+Require GMK.GoLite GMK.CellLang GMK.gen.CellGen GMK.CellLangSpec.
+
+Theorem C07_code_carcdr_is_model : forall procs h c st p m, nth_error h c = Some (OCell st p m) ->
+  CellLang.exec procs c CellGen.gen_CarCdr h [] = CellLangSpec.of_model (carcdr procs h c).
+Proof. exact CellLangSpec.gen_CarCdr_is_model. Qed.
+Print Assumptions C07_code_carcdr_is_model.
+
+Theorem C07_code_carcdr_returns : forall procs h c st p m, nth_error h c = Some (OCell st p m) ->
+  CellLang.exec procs c CellGen.gen_CarCdr h [] <> GoLite.Panic /\ CellLang.exec procs c CellGen.gen_CarCdr h [] <> GoLite.OOF_.
+Proof. exact CellLangSpec.gen_CarCdr_never_panics. Qed.
+Print Assumptions C07_code_carcdr_returns.
+
+Theorem C07_code_memo : forall procs h c st p m h1 lg r, nth_error h c = Some (OCell st p m) ->
+  CellLang.exec procs c CellGen.gen_CarCdr h [] = GoLite.Ret (h1, lg, Some r) ->
+  exists lg2, CellLang.exec procs c CellGen.gen_CarCdr h1 [] = GoLite.Ret (h1, lg2, Some r) /\ (lg2 = [] \/ snd r = None).
+Proof. exact CellLangSpec.gen_CarCdr_memo. Qed.
+Print Assumptions C07_code_memo.
+
+(* non-vacuity: an unforced cell whose closure yields a new cell: the first CarCdr allocates it and writes mem, the second writes nothing *)
+Example C07_code_nonvacuous :
+  let procs := fun p : nat => if Nat.eqb p 7 then Some (OCell (Some 5) None None) else None in
+  let h := [OCell None (Some 7) None] in
+  CellLang.exec procs 0 CellGen.gen_CarCdr h [] = GoLite.Ret ([OCell None (Some 7) (Some 1); OCell (Some 5) None None], [(0, 2)], Some (None, Some 1)) /\
+  CellLang.exec procs 0 CellGen.gen_CarCdr [OCell None (Some 7) (Some 1); OCell (Some 5) None None] []
+    = GoLite.Ret ([OCell None (Some 7) (Some 1); OCell (Some 5) None None], [], Some (None, Some 1)).
+Proof. vm_compute. split; reflexivity. Qed.
+
 (* Substitutions.String() sorts the slice in place: a permutation of pairs with distinct keys binds the same *)
 Theorem C07_sort_harmless : forall s s', NoDup (map fst s) -> Permutation s s' -> forall x, assv x s = assv x s'.
 Proof. exact assv_perm. Qed.
